@@ -48,6 +48,8 @@ def run(ctx):
         if n <= 3:
             ctx.sample({"driver": list(spec), "first_events": [x.strip() for x in lines[:6]]})
         rej = ctx.validate("Cache/CacheTrace07.tla", "CacheTrace07.cfg", t)
+        if n == 1 and not rej:
+            ctx.binding_selftest("Cache/CacheTrace07.tla", "CacheTrace07.cfg", t, [("wrong-value", mut_value), ("drop-rise", mut_drop("Rise")), ("drop-store", mut_drop_store)])
         for x in rej:
             ctx.violation("trace07:%s" % sig(x), "cache trace not a behaviour of Cache (C07) at %s" % x["event"][:160], x["path"])
         if spec[2] == 0 and not rej:
@@ -62,6 +64,46 @@ def run(ctx):
                          "distinct = distinct event texts (operation, arguments, result) among the first 4000 events of each driver run")
     import front
     front.run(ctx)
+
+
+def mut_value(lines):
+    import re as _re
+    for i, ln in enumerate(lines):
+        if '"e":"Fetch"' in ln and '"hit":true' in ln:
+            lines[i] = _re.sub(r'"v":(\d+)', lambda m: '"v":%d' % (int(m.group(1)) + 1000), ln, 1)
+            return lines
+    return None
+
+
+def mut_drop(kind):
+    def f(lines):
+        import json as _j
+        ev = [_j.loads(x) for x in lines]
+        # an invalidating event between a hit and a miss of the same key, nothing else in between that could explain the miss
+        for i, e in enumerate(ev):
+            if e["e"] != kind:
+                continue
+            t = e.get("t")
+            if i < 1 or i + 1 >= len(ev):
+                continue
+            before, after = ev[i - 1], ev[i + 1]
+            if before["e"] == "Fetch" and before.get("hit") and before.get("k") == t and after["e"] == "Fetch" and not after.get("hit") and after.get("k") == t:
+                return lines[:i] + lines[i + 1:]
+        return None
+    return f
+
+
+def mut_drop_store(lines):
+    import json as _j
+    for i, ln in enumerate(lines):
+        if '"e":"Store"' in ln:
+            k = _j.loads(ln)["k"]
+            for later in lines[i + 1:i + 30]:
+                if '"e":"Reset"' in later or ('"e":"Store"' in later and _j.loads(later)["k"] == k):
+                    break
+                if '"e":"Fetch"' in later and '"hit":true' in later and _j.loads(later)["k"] == k:
+                    return lines[:i] + lines[i + 1:]
+    return None
 
 
 def oversize(ctx, exe):
